@@ -121,6 +121,7 @@ type replayer struct {
 	cur      atomic.Value // description of the call in flight (violation template)
 	sum      replaySummary
 	seen     map[uint64]struct{}
+	perSig   map[uint64]int
 	maxKeep  int
 	canEvery int
 	calls    int
@@ -133,7 +134,10 @@ func (r *replayer) add(v violation) {
 		return
 	}
 	r.sum.Counts[v.Cat]++
-	if len(r.sum.Violations) < r.maxKeep {
+	// keep at most 2 per (category, family, expression) so that many different failing expressions are kept
+	k := hashKey(v.Cat, v.Fam, fmt.Sprint(v.ID))
+	if r.perSig[k] < 2 && len(r.sum.Violations) < r.maxKeep {
+		r.perSig[k]++
 		r.sum.Violations = append(r.sum.Violations, v)
 	}
 }
@@ -287,12 +291,12 @@ func mustJSON(v interface{}) string {
 func cmdReplay(args []string) int {
 	fs := flag.NewFlagSet("replay", flag.ExitOnError)
 	out := fs.String("out", "", "summary output file (JSON)")
-	keep := fs.Int("keep", 300, "max violations to keep in detail")
+	keep := fs.Int("keep", 3000, "max violations to keep in detail")
 	canEvery := fs.Int("canary-every", 0, "inject a corrupted observation every N search calls")
 	oneshot := fs.Bool("oneshot", false, "also run the one-shot Search for the first spelling")
 	fs.Parse(args)
 	start := time.Now()
-	r := &replayer{seen: map[uint64]struct{}{}, maxKeep: *keep, canEvery: *canEvery, oneshot: *oneshot}
+	r := &replayer{seen: map[uint64]struct{}{}, perSig: map[uint64]int{}, maxKeep: *keep, canEvery: *canEvery, oneshot: *oneshot}
 	r.sum.Counts = map[string]int{}
 	files := fs.Args()
 	sort.Strings(files)
